@@ -726,3 +726,30 @@ Print Assumptions C11_raw_reader_refines_src.
 Print Assumptions C11_stack_refines_src.
 Print Assumptions C11_stack_open_src.
 Print Assumptions C11_example_stack_src_premises.
+(* ---------- work package cfgT: the reader's stack is decided by the header byte and mirrors the stack the TRANSLATED writer built; translated from_config = the model's opening ---------- *)
+From MLA Require Config ConfigProofs SrcTie3Cfg SrcTie3CfgR SrcTie3CfgEx.
+From MLAGen Require Src3f.
+Theorem C11_cfg_reader_from_config_src : ltac:(let t := type of SrcTie3CfgR.reader_from_config_src in exact t).
+Proof. exact SrcTie3CfgR.reader_from_config_src. Qed.
+Print Assumptions C11_cfg_reader_from_config_src.
+Theorem C11_cfg_reader_stack_desc_src : ltac:(let t := type of SrcTie3CfgR.reader_stack_desc_src in exact t).
+Proof. exact SrcTie3CfgR.reader_stack_desc_src. Qed.
+Print Assumptions C11_cfg_reader_stack_desc_src.
+Theorem C11_cfg_reader_mirrors_writer_src : ltac:(let t := type of SrcTie3CfgR.reader_mirrors_writer_src in exact t).
+Proof. exact SrcTie3CfgR.reader_mirrors_writer_src. Qed.
+Print Assumptions C11_cfg_reader_mirrors_writer_src.
+Theorem C11_cfg_writer_from_config_archive_src : ltac:(let t := type of SrcTie3Cfg.writer_from_config_archive_src in exact t).
+Proof. exact SrcTie3Cfg.writer_from_config_archive_src. Qed.
+Print Assumptions C11_cfg_writer_from_config_archive_src.
+Theorem C11_cfg_archive_write_is_stack : ltac:(let t := type of ConfigProofs.archive_write_is_stack in exact t).
+Proof. exact ConfigProofs.archive_write_is_stack. Qed.
+Print Assumptions C11_cfg_archive_write_is_stack.
+Theorem C11_cfg_disable_layer_src : ltac:(let t := type of SrcTie3Cfg.disable_layer_src in exact t).
+Proof. exact SrcTie3Cfg.disable_layer_src. Qed.
+Print Assumptions C11_cfg_disable_layer_src.
+Theorem C11_cfg_disable_layer_differs : ltac:(let t := type of SrcTie3Cfg.disable_layer_differs in exact t).
+Proof. exact SrcTie3Cfg.disable_layer_differs. Qed.
+Print Assumptions C11_cfg_disable_layer_differs.
+Theorem C11_cfg_reader_from_config_examples : ltac:(let t := type of SrcTie3CfgEx.reader_from_config_examples in exact t).
+Proof. exact SrcTie3CfgEx.reader_from_config_examples. Qed.
+Print Assumptions C11_cfg_reader_from_config_examples.
